@@ -210,7 +210,7 @@ def pmtm(x, NW=None, k=None, NFFT=None, e=None, v=None, method="adapt", show=Fal
         # This version uses the equations from [2] (P&W pp 368-370).
 
         # Wrap the data modulo nfft if N > nfft
-        sig2 = np.dot(x, x) / float(N)
+        sig2 = np.real(np.dot(x, np.conj(x))) / float(N)
         Sk = abs(np.fft.fft(np.multiply(tapers.transpose(), x), NFFT)) ** 2
         Sk = Sk.transpose()
         S = (Sk[:, 0] + Sk[:, 1]) / 2  # Initial spectrum estimate
